@@ -209,17 +209,17 @@ func (c *cluster) handleChanges(key string, kvs []KV) {
 	}
 	c.lock.Unlock()
 
+	// 处理移除（先于新增：同一个键换了值时，先摘掉旧值再挂上新值）
+	for _, kv := range remove {
+		for _, l := range listeners {
+			l.OnDelete(kv)
+		}
+	}
+
 	// 处理新增
 	for _, kv := range add {
 		for _, l := range listeners {
 			l.OnAdd(kv)
-		}
-	}
-
-	// 处理移除
-	for _, kv := range remove {
-		for _, l := range listeners {
-			l.OnDelete(kv)
 		}
 	}
 }
